@@ -22,6 +22,9 @@ def type_code(s):
     m = re.match(r'main\.T(\d+)$', s)
     if m:
         return int(m.group(1))
+    m = re.match(r'main\.NS(\d+)$', s)
+    if m:
+        return 35 + 4 * int(m.group(1))
     m = re.match(r'main\.I(\d+)$', s)
     if m:
         return 16 + int(m.group(1))
